@@ -4,6 +4,7 @@ import (
 	"bytes"
 	"encoding/json"
 	"fmt"
+	"math"
 	"testing"
 
 	"github.com/philpearl/plenc/plenccodec"
@@ -19,6 +20,9 @@ import (
 type c13Case struct {
 	T    *vh.TSpec `json:"type"`
 	Vals []vh.Val  `json:"vals"`
+	// what a re-used outputter has been through before each walk:
+	// 0 nothing, 1 a rejected (truncated) input, 2 a non-finite number, 3 an unfinished walk
+	Poison int `json:"poison,omitempty"`
 }
 
 // c13Domain adjusts a generated value to the C13 domain: fields tagged flat
@@ -97,7 +101,7 @@ var c13 = &vh.Prop[c13Case]{
 			vals[i] = vh.GenVal(t, ts, vh.VProfile{NoNaN: true, JSONTimes: true})
 			c13FixFlat(ts, "", &vals[i])
 		}
-		return c13Case{T: ts, Vals: vals}
+		return c13Case{T: ts, Vals: vals, Poison: rapid.IntRange(0, 3).Draw(t, "poison")}
 	},
 	Run: func(c c13Case, x *vh.Ctx) *vh.Failure {
 		for _, l := range vh.ShapeLabels(c.T) {
@@ -138,6 +142,7 @@ var c13 = &vh.Prop[c13Case]{
 		if !descriptorEqual(&direct, &viaJSON) {
 			return vh.Fail("C13/descriptor-changed-by-json-roundtrip", "descriptor differs after a round trip through encoding/json")
 		}
+		var reused plenccodec.JSONOutput
 		for vi, v := range c.Vals {
 			for _, l := range vh.ValueLabels(c.T, v) {
 				x.Label(l)
@@ -176,6 +181,36 @@ var c13 = &vh.Prop[c13Case]{
 				} else if !bytes.Equal(doc, first) {
 					return vh.Fail("C13/restored-descriptor-output-differs", "value %d: output with restored descriptor %d differs:\n%q\n%q", vi, di, doc, first)
 				}
+			}
+			// one outputter for the whole case, Reset before each walk, whatever it went through before
+			switch c.Poison {
+			case 1:
+				if len(data) > 1 {
+					reused.Reset()
+					direct.Read(&reused, data[:len(data)-1-len(data)/3]) // usually rejected part-way; no Done
+					x.Label("reused-outputter:after-rejected-input")
+				}
+			case 2:
+				reused.Reset()
+				reused.StartArray()
+				reused.Float64(math.NaN())
+				reused.Float32(float32(math.Inf(-1)))
+				reused.EndArray()
+				reused.Done()
+				x.Label("reused-outputter:after-non-finite")
+			case 3:
+				reused.Reset()
+				reused.StartObject()
+				reused.NameField("open")
+				reused.StartArray()
+				x.Label("reused-outputter:after-unfinished")
+			}
+			reused.Reset()
+			if err := direct.Read(&reused, data); err != nil {
+				return vh.Fail("C13/reused-outputter-differs", "value %d: walk with a re-used outputter (history %d) fails: %v", vi, c.Poison, err)
+			}
+			if doc := reused.Done(); !bytes.Equal(doc, first) {
+				return vh.Fail("C13/reused-outputter-differs", "value %d: a re-used outputter (history %d, Reset before the walk) gives %q, a new one %q", vi, c.Poison, doc, first)
 			}
 		}
 		return nil
